@@ -39,7 +39,7 @@ ASSUMPTIONS = [
     "unit tables are restored (mc/isolation.py) after every case that raised; cases of this property define no units",
 ]
 
-NAMES = "abcdef"
+NAMES = "abcdefgh"
 MAXLEVEL = 3                       # levels 0..3  = depth 4
 
 
